@@ -748,6 +748,8 @@ func (e *Engine) exec(st *State, fr *frame, b, pred *ssa.BasicBlock, idx, depth 
 				if c.Src == nil {
 					cc := *c
 					cc.Src = in.Cond
+					ex := e.exactArith(st, fr, in.Cond, 0)
+					cc.Exact = &ex
 					c = &cc
 				}
 				st.conds = append(st.conds, c)
